@@ -36,23 +36,23 @@ fn c03_rows_conserve_pixels_3() {
             None => break,
             Some(r) => {
                 nrows += 1;
-                assert!(r.colors.len() >= 1 && r.x_right as usize == r.x_left as usize + r.colors.len() - 1, "C03: malformed row");
+                kani::assert(r.colors.len() >= 1 && r.x_right as usize == r.x_left as usize + r.colors.len() - 1, "C03: malformed row");
                 let mut i = 0;
                 while i < r.colors.len() {
-                    assert!(k < n, "C03: more pixels out than in");
-                    assert!(p[k].0 as usize == r.x_left as usize + i && p[k].1 == r.y && colour(p[k].2) == r.colors[i], "C03: pixel dropped, recoloured or reordered by row batching");
+                    kani::assert(k < n, "C03: more pixels out than in");
+                    kani::assert(p[k].0 as usize == r.x_left as usize + i && p[k].1 == r.y && colour(p[k].2) == r.colors[i], "C03: pixel dropped, recoloured or reordered by row batching");
                     k += 1;
                     i += 1;
                 }
                 // maximality (C20): the next pixel, if any, is not adjacent to this row
                 if k < n {
-                    assert!(!(p[k].1 == r.y && p[k].0 == r.x_right + 1), "C20: an adjacent same-row pixel started a new row below the row capacity");
+                    kani::assert(!(p[k].1 == r.y && p[k].0 == r.x_right + 1), "C20: an adjacent same-row pixel started a new row below the row capacity");
                 }
             }
         }
     }
-    assert!(k == n, "C03: trailing partial row lost");
-    assert!(nrows <= n, "C20: more rows than pixels");
+    kani::assert(k == n, "C03: trailing partial row lost");
+    kani::assert(nrows <= n, "C20: more rows than pixels");
 }
 
 /// bounded: 3 rows of symbolic geometry: blocks conserve rows in order, never split a row, and are rectangular
@@ -81,19 +81,19 @@ fn c03_blocks_conserve_rows_3() {
             Some(b) => {
                 let w = b.x_right as usize - b.x_left as usize + 1;
                 let h = b.y_bottom as usize - b.y_top as usize + 1;
-                assert!(b.colors.len() == w * h, "C03: block is not a full rectangle");
+                kani::assert(b.colors.len() == w * h, "C03: block is not a full rectangle");
                 let mut r = 0;
                 while r < h {
-                    assert!(k < n, "C03: more rows out than in");
+                    kani::assert(k < n, "C03: more rows out than in");
                     let len = (g[k].2 % 2) as usize + 1;
-                    assert!(g[k].0 == b.x_left && len == w && g[k].1 as usize == b.y_top as usize + r, "C03: row merged into a block of different shape / order");
-                    assert!(b.colors[r * w] == colour(g[k].3), "C03: colours of a row misplaced in the block");
-                    if w == 2 { assert!(b.colors[r * w + 1] == colour(g[k].3.wrapping_add(1)), "C03: colours of a row misplaced in the block"); }
+                    kani::assert(g[k].0 == b.x_left && len == w && g[k].1 as usize == b.y_top as usize + r, "C03: row merged into a block of different shape / order");
+                    kani::assert(b.colors[r * w] == colour(g[k].3), "C03: colours of a row misplaced in the block");
+                    if w == 2 { kani::assert(b.colors[r * w + 1] == colour(g[k].3.wrapping_add(1)), "C03: colours of a row misplaced in the block"); }
                     k += 1;
                     r += 1;
                 }
             }
         }
     }
-    assert!(k == n, "C03: trailing partial block lost");
+    kani::assert(k == n, "C03: trailing partial block lost");
 }
